@@ -17,7 +17,7 @@ OUTSIDE = ["back-tick delimited table names in ALTER / INDEX addresses", "three-
 
 def obligations(tier):
     t = 400 if tier == "quick" else 1500
-    n = 3 if tier == "quick" else 5
+    n = 3 if tier == "quick" else 4
     obs = [Ob(f"C04.route/{k}", "c04", "c_route", {"VF_KIND": i, "VF_NSP": n, "VF_NSC": n}, t, FN,
               f"target table spelled with one of {n} name spellings x {n} schema spellings, statement addressed with an independent pair (all symbolic); "
               "other table = same name in another schema / other name / near name t$; table order symbolic")
